@@ -52,7 +52,7 @@ func opLRU(args []string) string {
 }
 
 func lruState(u *gotype.Unfolder) string {
-	order, n, ok := u.VerifKeyCacheOrder()
+	order, n, ok := hookKeyCacheOrder(u)
 	if !ok {
 		return "off"
 	}
